@@ -125,6 +125,14 @@ def crashVerdicts (op : String) (obs : List (String × String)) : List Verdict :
   | some "hang" => [.monitor s!"no_hang/{op}" ""]
   | _ => []
 
+/-- C02: when an RPC that stores or references sectors reported success, no slot holding a sector
+the contract (or the request) references may still be waiting for its fsync -/
+def syncVerdicts (site : String) (res : String) (obs : List (String × String)) : List Verdict :=
+  match res, getNat obs "unsynced" with
+  | "accept", some k =>
+    if k == 0 then [] else [.monitor s!"c02/rpc_commit_synced/{site}" s!"referenced_unsynced_slots={k},dirty_slots={(getNat obs "dirty").getD 0}"]
+  | _, _ => []
+
 /-- a rejected request must leave revision and roots alone -/
 def noopVerdicts (sn : Snap) (revisionMayMove : Bool) : List Verdict :=
   (if !revisionMayMove && (sn.rv0 != sn.rv1) then [.monitor "reject_noop/revision" s!"{sn.rv0}->{sn.rv1}"] else []) ++
@@ -330,6 +338,7 @@ def step (fx : Fixes) (d : DState) (l : Line) : DState × List Verdict :=
           noopVerdicts sn false ++
           (if sn.charged != 0 || sn.gained != 0 then [.monitor "reject_noop/balance_refused" s!"charged={sn.charged},gained={sn.gained}"] else [])
       | _, _ => []
+    let mon := mon ++ syncVerdicts "programExecutor.commit" res l.obs
     if (lookup l.args "mut").isSome && lookup l.args "mut" != some "[]" then
       -- byte-level mutation of a valid request: decoding is core's, no prediction; monitors only
       ({ d with modelFree := d.modelFree + 1 }, mon ++ noop)
@@ -483,7 +492,7 @@ def step (fx : Fixes) (d : DState) (l : Line) : DState × List Verdict :=
       | some wa =>
         let m := v2Write fx n wa (getNat l.args "proof" == some 1) (v2PayOf (getStr l.args "pay")) (getStr l.args "sig" != some "bad")
         let d := match m with | .panic _ => { d with modelPanics := d.modelPanics + 1 } | _ => d
-        (d, v2Verdicts "v2write" m l.obs)
+        (d, v2Verdicts "v2write" m l.obs ++ syncVerdicts "rpcWrite" res l.obs)
     | _, _ => (d, [.badline "v2write fields"])
   else if l.op == "v2form" then
     match getNat l.args "keylen", getNat l.args "txns", getNat l.args "fcs" with
